@@ -266,7 +266,12 @@ func trunc(v string) string {
 	return v
 }
 
+// lastSnaps: the per-line readings of the sequence checked last (for the cross-scope comparison)
+var lastSnaps map[int]sim.Snap
+var lastErr bool
+
 func checkSeq(oc *fw.Outcome, s seq) {
+	lastSnaps, lastErr = nil, false
 	src := render(s)
 	fw.JournalS(src)
 	oc.Evals++
@@ -294,6 +299,7 @@ func checkSeq(oc *fw.Outcome, s seq) {
 			byLine[sn.Line] = sn
 		}
 	}
+	lastSnaps, lastErr = byLine, res.Err != nil
 	nOK := len(s.Ops)
 	if res.Err != nil {
 		// a reported runtime error ends the sequence; the prefix is still checked
@@ -584,8 +590,52 @@ func run(c fw.Case) fw.Outcome {
 		oc.Tag("enum-cases")
 		return oc
 	}
-	for _, s := range b.Seqs {
+	for si, s := range b.Seqs {
 		checkSeq(&oc, s)
+		// every fifth sequence runs again in another scope in which the object is writable: what a header
+		// variable reads after the same operations does not depend on the subroutine
+		if si%5 != 0 || lastSnaps == nil || lastErr {
+			continue
+		}
+		first := lastSnaps
+		var others []string
+		for _, t := range targets {
+			if t.obj == s.Obj && t.scope != s.Scope {
+				others = append(others, t.scope)
+			}
+		}
+		if len(others) == 0 {
+			continue
+		}
+		s2 := s
+		s2.Scope = others[(si/5)%len(others)]
+		checkSeq(&oc, s2)
+		if lastSnaps == nil || lastErr {
+			continue
+		}
+		oc.Tag("cross-scope:" + s.Obj)
+	cmp:
+		for i := 0; i <= len(s.Ops); i++ {
+			a, okA := first[3+i]
+			b2, okB := lastSnaps[3+i]
+			if !okA || !okB {
+				break
+			}
+			for name, va := range a.Vals {
+				if !strings.HasPrefix(name, s.Obj+".http.") {
+					continue
+				}
+				if vb, ok := b2.Vals[name]; ok && vb != va {
+					kind := "init"
+					if i > 0 {
+						kind = s.Ops[i-1].K
+					}
+					oc.Violate(fmt.Sprintf("%s/cross-scope/%s", s.Obj, kind), fmt.Sprintf("after the same %d operation(s) %s reads %s in %s but %s in %s", i, name, va, s.Scope, vb, s2.Scope),
+						map[string]any{"object": s.Obj, "scope_a": s.Scope, "scope_b": s2.Scope, "vcl": render(s), "after_ops": i})
+					break cmp
+				}
+			}
+		}
 	}
 	if len(b.Seqs) > 0 {
 		oc.Sample = map[string]any{"object": b.Seqs[0].Obj, "scope": b.Seqs[0].Scope, "vcl": render(b.Seqs[0])}
